@@ -338,6 +338,50 @@ partial def loop (T : Tables) (inp out : IO.FS.Stream) (ss : Sess) : IO Unit := 
         out.putStrLn s!"T {h} {pBool su} {e.index} {e.label}"
       out.putStrLn "."
       loop T inp out ss
+  | ["parsex", hex] =>
+    -- card text given as the hexadecimal code points of its characters, separated by `.`
+    let cs := (hex.splitOn ".").filterMap fun h =>
+      if h.isEmpty then none else
+      (h.toList.foldl (fun (acc : Option Nat) c =>
+        match acc with
+        | none => none
+        | some v =>
+          if '0' ≤ c && c ≤ '9' then some (v * 16 + (c.toNat - '0'.toNat))
+          else if 'a' ≤ c && c ≤ 'f' then some (v * 16 + (c.toNat - 'a'.toNat + 10))
+          else none) (some 0)).map Char.ofNat
+    (match Card.parseChars cs with
+    | some cs => out.putStrLn ("P " ++ pCards cs)
+    | none => out.putStrLn "P !ValueError")
+    loop T inp out ss
+  | "clean" :: kind :: n :: rest =>
+    -- `clean num <n> <v>` | `clean seq <n> <x>…` | `clean map <n> <k:v>…`
+    let n := n.toNat?.getD 0
+    let v : Option ValuesLike :=
+      if kind == "num" then (rest.head?.bind String.toInt?).map ValuesLike.num
+      else if kind == "seq" then some (.seq (rest.filterMap String.toInt?))
+      else some (.map (rest.filterMap fun kv =>
+        match kv.splitOn ":" with
+        | [k, x] => match k.toInt?, x.toInt? with
+          | some k, some x => some (k, x)
+          | _, _ => none
+        | _ => none))
+    (match v with
+    | none => out.putStrLn "X bad-clean"
+    | some v => match cleanValues v n with
+      | some l => out.putStrLn ("V " ++ pList pInt l)
+      | none => out.putStrLn "V !IndexError")
+    loop T inp out ss
+  | ["divmod", a, n] =>
+    (match pyDivmod (a.toInt?.getD 0) (n.toInt?.getD 0) with
+    | some (q, r) => out.putStrLn s!"M {q} {r}"
+    | none => out.putStrLn "M !ZeroDivisionError")
+    loop T inp out ss
+  | ["rakeq", num, den, cap, nfnd, board, amount] =>
+    let r : RakeCfg := { num := num.toInt?.getD 0, den := den.toInt?.getD 1,
+                         cap := if cap == "inf" then none else cap.toInt?, nfnd := nfnd == "1" }
+    let x := pyRake r (board == "1") (amount.toInt?.getD 0)
+    out.putStrLn s!"K {x.1} {x.2}"
+    loop T inp out ss
   | ["parse", s] =>
     -- card text parsing; `~` stands for a space, `_` for the empty string
     let s := if s == "_" then "" else s.replace "~" " "
